@@ -339,6 +339,9 @@ impl Prop for C14 {
         vec!["Units::Pico is outside the schema and not generated".into(), "instance angle None and 0 are identified (the schema has a plain integer)".into(),
              "port/blockage purposes are not stored in the raw model: messages use the Pin/Obstruction numbers of the supplied Layers".into()]
     }
+    fn miri_gen(&self) -> Option<&'static str> {
+        Some("raw-proto-raw")
+    }
     fn plan(&self, tier: Tier) -> Vec<GenSpec> {
         vec![
             GenSpec::random("raw-proto-raw", tier.pick(30_000, 400_000)),
